@@ -91,7 +91,7 @@ theorem fits_rows {g : Geom} (okg : GeomOk g) (o order : Nat) (h6 : 6 < order) (
   exact Nat.le_of_mul_le_mul_left this (by decide)
 
 section
-variable {g : Geom}
+variable {g : Geom} (G : Owned → Prop)
 
 theorem addBits_eq_block (own : Owned) (F n : Nat) (hfit : F % 64 + n ≤ 64) : addBits own (F / 64) (F % 64) n = addBlock own F n := by
   unfold addBits addBlock; rw [inBits_eq_block F n hfit]
@@ -114,12 +114,40 @@ theorem addRows_eq_block (own : Owned) (F K : Nat) (hal : F % 64 = 0) : addRows 
 theorem subRows_eq_block (own : Owned) (F K : Nat) (hal : F % 64 = 0) : subRows own (F / 64) K = subBlock own F (K * 64) := by
   unfold subRows subBlock; rw [inRows_eq_block F K hal]
 
+
+/-- `o` lies between `lo` and `hi` -/
+def Between (lo hi o : Owned) : Prop := (∀ f, lo f = true → o f = true) ∧ (∀ f, o f = true → hi f = true)
+
+theorem Between.addBlock_top (own : Owned) (F n : Nat) : Between own (addBlock own F n) (addBlock own F n) :=
+  ⟨fun f hf => by unfold addBlock; simp [hf], fun _ hf => hf⟩
+
+theorem Between.subBlock_bot (own : Owned) (F n : Nat) : Between (subBlock own F n) own (subBlock own F n) :=
+  ⟨fun _ hf => hf, fun f hf => by unfold subBlock at hf; simp at hf; exact hf.1⟩
+
+theorem Between.addRows (own : Owned) (R j K : Nat) (hj : j ≤ K) : Between own (addRows own R K) (addRows own R j) := by
+  refine ⟨fun f hf => by unfold LLFree.addRows; simp [hf], fun f hf => ?_⟩
+  unfold LLFree.addRows inRows at *
+  simp only [Bool.or_eq_true, Bool.and_eq_true, decide_eq_true_eq] at *
+  rcases hf with hf | hf
+  · exact Or.inl hf
+  · exact Or.inr ⟨hf.1, by omega⟩
+
+theorem Between.subRows (own : Owned) (R j K : Nat) (hj : j ≤ K) : Between (subRows own R K) own (subRows own R j) := by
+  refine ⟨fun f hf => ?_, fun f hf => by unfold LLFree.subRows at hf; simp at hf; exact hf.1⟩
+  unfold LLFree.subRows inRows at *
+  simp only [Bool.and_eq_true, Bool.not_eq_true', Bool.and_eq_false_iff, decide_eq_true_eq, decide_eq_false_iff_not] at *
+  refine ⟨hf.1, ?_⟩
+  rcases hf.2 with h | h
+  · exact Or.inl h
+  · exact Or.inr (by omega)
+
 /-- **Allocation by `toggle` in any interleaving**: a success claims exactly the block (whose
     bits were all free at that instant), a failure is `Memory` and claims nothing; no panic
     (the roll-back of a multi-row allocation cannot fail). -/
 theorem toggle_alloc_safe (okg : GeomOk g) (own : Owned) (h i order : Nat) (hoh : order ≤ g.hugeOrder)
-    (hal : (i % g.hugeFrames) % 2 ^ order = 0) :
-    SafeR (AllocPost own (h * g.hugeFrames + i % g.hugeFrames) (2 ^ order)) own (Bitfield.toggle g h i order false) := by
+    (hal : (i % g.hugeFrames) % 2 ^ order = 0)
+    (hG : ∀ o, Between own (addBlock own (h * g.hugeFrames + i % g.hugeFrames) (2 ^ order)) o → G o) :
+    SafeR G (AllocPost own (h * g.hugeFrames + i % g.hugeFrames) (2 ^ order)) own (Bitfield.toggle g h i order false) := by
   have hHF := okg.hf_pos
   generalize hO : i % g.hugeFrames = o at *
   have holt : o < g.hugeFrames := by rw [← hO]; exact Nat.mod_lt _ hHF
@@ -133,7 +161,8 @@ theorem toggle_alloc_safe (okg : GeomOk g) (own : Owned) (h i order : Nat) (hoh 
     rw [hrow1, hbit1]
     obtain ⟨hfit, _⟩ := fits_word o order (by omega) hal
     have hn : 2 ^ order ≤ 64 := by omega
-    have key := toggle_small_alloc_safe own (h * g.rows + o / 64) (o % 64) (2 ^ order) hfit hn
+    have key := toggle_small_alloc_safe G own (h * g.rows + o / 64) (o % 64) (2 ^ order) hfit hn
+      (by rw [← hFrow, ← hFbit, addBits_eq_block own _ _ (by rw [hFbit]; exact hfit)]; exact hG _ (Between.addBlock_top _ _ _))
     have hpost : ∀ r o', ToggleAllocPost own (h * g.rows + o / 64) (o % 64) (2 ^ order) r o' →
         AllocPost own (h * g.hugeFrames + o) (2 ^ order) r o' := by
       intro r o' hr
@@ -155,7 +184,8 @@ theorem toggle_alloc_safe (okg : GeomOk g) (own : Owned) (h i order : Nat) (hoh 
         have := Nat.div_add_mod (o % 64) (2 ^ order)
         rw [hmm, Nat.mul_comm] at this; omega
       rw [hsh]
-      have key := toggle_int_alloc_safe own (h * g.rows + o / 64) (o % 64) (2 ^ order) (by omega) hfit
+      have key := toggle_int_alloc_safe G own (h * g.rows + o / 64) (o % 64) (2 ^ order) (by omega) hfit
+        (by rw [← hFrow, ← hFbit, addBits_eq_block own _ _ (by rw [hFbit]; exact hfit)]; exact hG _ (Between.addBlock_top _ _ _))
       have hpost : ∀ r o', ToggleAllocPost own (h * g.rows + o / 64) (o % 64) (2 ^ order) r o' →
           AllocPost own (h * g.hugeFrames + o) (2 ^ order) r o' := by
         intro r o' hr
@@ -172,10 +202,11 @@ theorem toggle_alloc_safe (okg : GeomOk g) (own : Owned) (h i order : Nat) (hoh 
       obtain ⟨ho64, hdiv, hrows, hmul⟩ := fits_rows okg o order (by omega) hoh holt hal
       rw [hrow1, hdiv]
       simp only [Bool.false_eq_true, if_false]
-      have key := toggle_go_alloc_safe g own h (o / 64) (2 ^ (order - 6)) hrows (2 ^ (order - 6)) 0 (by omega)
-        (fun x hx => by omega)
-      simp only [Nat.add_zero] at key
       have hF64 : (h * g.hugeFrames + o) % 64 = 0 := by rw [hFbit]; exact ho64
+      have key := toggle_go_alloc_safe g G own h (o / 64) (2 ^ (order - 6)) hrows (2 ^ (order - 6)) 0 (by omega)
+        (fun x hx => by omega)
+        (fun j hj => hG _ (by rw [← hmul, ← addRows_eq_block own _ _ hF64, hFrow]; exact Between.addRows own _ j _ hj))
+      simp only [Nat.add_zero] at key
       have hpost : ∀ r o', AllocRowsPost own (h * g.rows + o / 64) (2 ^ (order - 6)) r o' →
           AllocPost own (h * g.hugeFrames + o) (2 ^ order) r o' := by
         intro r o' hr
@@ -199,8 +230,9 @@ theorem toggle_alloc_safe (okg : GeomOk g) (own : Owned) (h i order : Nat) (hoh 
     releases exactly the block; no other thread can have touched its bits. -/
 theorem toggle_free_safe (okg : GeomOk g) (own : Owned) (h i order : Nat) (hoh : order ≤ g.hugeOrder)
     (hal : (i % g.hugeFrames) % 2 ^ order = 0)
-    (hown : ∀ f, inBlockF (h * g.hugeFrames + i % g.hugeFrames) (2 ^ order) f = true → own f = true) :
-    SafeR (FreePost own (h * g.hugeFrames + i % g.hugeFrames) (2 ^ order)) own (Bitfield.toggle g h i order true) := by
+    (hown : ∀ f, inBlockF (h * g.hugeFrames + i % g.hugeFrames) (2 ^ order) f = true → own f = true)
+    (hG : ∀ o, Between (subBlock own (h * g.hugeFrames + i % g.hugeFrames) (2 ^ order)) own o → G o) :
+    SafeR G (FreePost own (h * g.hugeFrames + i % g.hugeFrames) (2 ^ order)) own (Bitfield.toggle g h i order true) := by
   have hHF := okg.hf_pos
   generalize hO : i % g.hugeFrames = o at *
   have holt : o < g.hugeFrames := by rw [← hO]; exact Nat.mod_lt _ hHF
@@ -219,7 +251,8 @@ theorem toggle_free_safe (okg : GeomOk g) (own : Owned) (h i order : Nat) (hoh :
       apply hown
       rw [← inBits_eq_block _ _ (by rw [hFbit]; exact hfit), hFrow, hFbit, inBits_row _ _ _ b hb]
       simp [h1, h3]
-    have key := toggle_small_free_safe own (h * g.rows + o / 64) (o % 64) (2 ^ order) hfit hn hown'
+    have key := toggle_small_free_safe G own (h * g.rows + o / 64) (o % 64) (2 ^ order) hfit hn hown'
+      (by rw [← hFrow, ← hFbit, subBits_eq_block own _ _ (by rw [hFbit]; exact hfit)]; exact hG _ (Between.subBlock_bot _ _ _))
     have hpost : ∀ r o', ToggleFreePost own (h * g.rows + o / 64) (o % 64) (2 ^ order) r o' →
         FreePost own (h * g.hugeFrames + o) (2 ^ order) r o' := by
       intro r o' hr
@@ -245,7 +278,8 @@ theorem toggle_free_safe (okg : GeomOk g) (own : Owned) (h i order : Nat) (hoh :
         apply hown
         rw [← inBits_eq_block _ _ (by rw [hFbit]; exact hfit), hFrow, hFbit, inBits_row _ _ _ b hb]
         simp [h1, h3]
-      have key := toggle_int_free_safe own (h * g.rows + o / 64) (o % 64) (2 ^ order) (by omega) hfit hown'
+      have key := toggle_int_free_safe G own (h * g.rows + o / 64) (o % 64) (2 ^ order) (by omega) hfit hown'
+        (by rw [← hFrow, ← hFbit, subBits_eq_block own _ _ (by rw [hFbit]; exact hfit)]; exact hG _ (Between.subBlock_bot _ _ _))
       have hpost : ∀ r o', ToggleFreePost own (h * g.rows + o / 64) (o % 64) (2 ^ order) r o' →
           FreePost own (h * g.hugeFrames + o) (2 ^ order) r o' := by
         intro r o' hr
@@ -268,7 +302,8 @@ theorem toggle_free_safe (okg : GeomOk g) (own : Owned) (h i order : Nat) (hoh :
         unfold inRows
         have e1 : ((h * g.rows + o / 64 + x) * 64 + b) / 64 = h * g.rows + o / 64 + x := by omega
         simp [e1]; omega
-      have key := toggle_go_free_safe g own h (o / 64) (2 ^ (order - 6)) hrows hown' (2 ^ (order - 6)) 0 (by omega)
+      have key := toggle_go_free_safe g G own h (o / 64) (2 ^ (order - 6)) hrows hown' (2 ^ (order - 6)) 0 (by omega)
+        (fun j hj => hG _ (by rw [← hmul, ← subRows_eq_block own _ _ hF64, hFrow]; exact Between.subRows own _ j _ hj))
       simp only [Nat.add_zero] at key
       have hsub0 : subRows own (h * g.rows + o / 64) 0 = own := by
         funext f; unfold subRows inRows
